@@ -462,6 +462,7 @@ def tlc_jobs(ctx):
         # name, module, cfg, workers, timeout, exhaustive, strict-tag
         ("MCXzGrep(scanner, wide vocabulary, MaxOpts=%d)" % (1 if q else 2), "MCXzGrep", "MCXzGrep.cfg" if q else "MCXzGrepWide2.cfg", 3, 240 if q else 1200, True, None),
         ("MCXzGrep(scanner+file loop, all file-state vectors <= 3)", "MCXzGrep", "MCXzGrepFiles.cfg" if q else "MCXzGrepFilesBig.cfg", 3, 240 if q else 1200, True, None),
+        ("MCXzGrep(every pattern form x file-state vectors, action coverage)", "MCXzGrep", "MCXzGrepCov.cfg", 2, 240, "cov", None),
         ("MCXzGrep(strict context-separator contract)", "MCXzGrep", "MCXzGrepStrict_sedctx.cfg", 1, 120, None, "grep:sed-context"),
         ("MCXzDiff", "MCXzDiff", "MCXzDiff.cfg" if q else "MCXzDiffBig.cfg", 2, 240 if q else 1200, True, None),
         ("MCXzDiff(strict: stdin as second operand)", "MCXzDiff", "MCXzDiffStrict.cfg", 1, 120, None, "diff:stdin-second-operand"),
@@ -483,13 +484,13 @@ def run(ctx):
     n_grep, pool_grep = (300, 1100) if q else (6000, 9000)
     n_diff, pool_diff = (110, 500) if q else (2000, 3500)
     with ThreadPoolExecutor(max_workers=4) as ex:
-        futs = [(j, ex.submit(tlc.run, j[1], cfg=j[2], workers=j[3], timeout=j[4])) for j in tlc_jobs(ctx)]
+        futs = [(j, ex.submit(tlc.run, j[1], cfg=j[2], workers=j[3], timeout=j[4], coverage=(j[5] == "cov" or j[1] == "MCXzDiff" and j[5] is True))) for j in tlc_jobs(ctx)]
         fg = ex.submit(tlc.run, "GenXzGrep", workers=1, timeout=900, simulate=pool_grep, depth=90, seed=ctx.seed)
         fd = ex.submit(tlc.run, "GenXzDiff", workers=1, timeout=900, simulate=pool_diff, depth=60, seed=ctx.seed)
         strict = {}
         for j, f in futs:
             r = f.result()
-            ctx.add_tlc(j[0], r, exhaustive=j[5])
+            ctx.add_tlc(j[0], r, exhaustive=bool(j[5]) if j[5] is not None else None)
             ctx.log(j[0] + ":", r.summary())
             if j[6] is None:
                 if r.violation:
